@@ -3,7 +3,8 @@
 (* A case is a class table (chain, fork, or a class with two supertypes), a sequence of       *)
 (* instance creations, the declaration of an object variable at some point of that sequence,  *)
 (* and one constraint on it (a field value, an equality or disequality with an instance, a    *)
-(* field reached through a chain of two variables). The reference semantics gives the domain  *)
+(* field reached through a chain of two variables, a bound on a field that is a variable  *)
+(* of its own, bounded differently in every instance). The reference semantics gives the domain  *)
 (* of the variable at its declaration (exactly the instances of its type and subtypes created *)
 (* so far), whether the program has a solution and which instances the variable may denote.   *)
 EXTENDS Integers, Sequences, FiniteSets, SequencesExt, Json, IOUtils, TLC
@@ -65,12 +66,12 @@ RECURSIVE News(_, _, _)
 News(c, from, to) == IF from > to THEN "" ELSE NewIn(c.tb, c.ts[from], from, c.ids[from]) \o News(c, from + 1, to)
 Text(c) == Decl(c.tb, Tables[c.tb]) \o News(c, 1, c.pos) \o c.vt \o " v; " \o News(c, c.pos + 1, 3) \o ConText(c)
 Names(S) == {IName(j) : j \in S}
-ObjCase(c) == [kind |-> "obj", text |-> Text(c), var |-> "v", dom0 |-> SetToSeq(Names(Dom0(c))), allowed |-> SetToSeq(Names(Allowed(c))),
+ObjCase(c) == [kind |-> "obj", fam |-> "table", text |-> Text(c), var |-> "v", dom0 |-> SetToSeq(Names(Dom0(c))), allowed |-> SetToSeq(Names(Allowed(c))),
                sat |-> IF Allowed(c) # {} THEN 1 ELSE 0]
 
 \* field access through a chain of variables: holders referring to instances
 HolderCases ==
-  {[kind |-> "obj",
+  {[kind |-> "obj", fam |-> "holder",
     text |-> "class A { real id; A(real id) : id(id) {} } class H { A ref; H(A ref) : ref(ref) {} } "
              \o "A i1 = new A(0.0); A i2 = new A(1.0); A i3 = new A(" \o Num(k3) \o "); H h1 = new H(i1); H h2 = new H(i2); H h3 = new H(i3); "
              \o "H v; v.ref.id == " \o Num(k) \o "; ",
@@ -78,7 +79,23 @@ HolderCases ==
     allowed |-> SetToSeq({h \in {"h1", "h2", "h3"} : (h = "h1" /\ k = 0) \/ (h = "h2" /\ k = 1) \/ (h = "h3" /\ k = k3)}),
     sat |-> IF k \in {0, 1, k3} THEN 1 ELSE 0] : k \in 0..3, k3 \in {1, 2}}
 
-Cases == {ObjCase(c) : c \in {x \in RawCases : WellTyped(x)}} \cup HolderCases
+\* a field that is a variable of its own: every instance bounds it in its constructor body; the constraint posted through
+\* the object variable can be met by exactly the instances whose range reaches it
+RangeSet == {<<0, 1>>, <<1, 3>>, <<2, 3>>, <<0, 3>>, <<2, 2>>}
+Rels == {"ge", "le", "eq", "gt", "lt"}
+RelText(r) == CASE r = "ge" -> ">=" [] r = "le" -> "<=" [] r = "eq" -> "==" [] r = "gt" -> ">" [] r = "lt" -> "<"
+Fits(rg, r, k) == CASE r = "ge" -> rg[2] >= k [] r = "le" -> rg[1] <= k [] r = "eq" -> rg[1] <= k /\ k <= rg[2] [] r = "gt" -> rg[2] > k [] r = "lt" -> rg[1] < k
+RangeCases ==
+  {[kind |-> "obj", fam |-> "range",
+    text |-> "class T { real level; T(real lo, real hi) { level >= lo; level <= hi; } } "
+             \o "T i1 = new T(" \o Num(r1[1]) \o ", " \o Num(r1[2]) \o "); T i2 = new T(" \o Num(r2[1]) \o ", " \o Num(r2[2]) \o "); "
+             \o "T i3 = new T(" \o Num(r3[1]) \o ", " \o Num(r3[2]) \o "); T v; v.level " \o RelText(r) \o " " \o Num(k) \o "; ",
+    var |-> "v", dom0 |-> <<"i1", "i2", "i3">>,
+    allowed |-> SetToSeq({IName(j) : j \in {i \in 1..3 : Fits(<<r1, r2, r3>>[i], r, k)}}),
+    sat |-> IF \E i \in 1..3 : Fits(<<r1, r2, r3>>[i], r, k) THEN 1 ELSE 0] :
+     r1 \in RangeSet, r2 \in RangeSet, r3 \in RangeSet, r \in Rels, k \in 0..3}
+
+Cases == {ObjCase(c) : c \in {x \in RawCases : WellTyped(x)}} \cup HolderCases \cup RangeCases
 ASSUME ndJsonSerialize(Out, SetToSeq(Cases))
 ASSUME PrintT(<<"GENERATED", Cardinality(Cases)>>)
 
